@@ -120,10 +120,14 @@ class World:
         self.sender = cfg["role"] == "S"
         cls = transit.TransitSender if self.sender else transit.TransitReceiver
         self.t = cls("", reactor=self.clock)
-        self.t.set_transit_key(KEY)
-        self.send_this = self.t._send_this()
-        self.expect_this = self.t._expect_this()
-        self.relay_hs = self.t._build_relay_handshake()
+        # `wormhole receive` knows the key before it listens; `wormhole send` calls get_connection_hints() (which
+        # starts the listener) BEFORE set_transit_key(): cfg["late_key"] selects that order, op "setkey" ends it
+        self.has_key = not cfg.get("late_key", False)
+        if self.has_key:
+            self.t.set_transit_key(KEY)
+        hs_s, hs_r = transit.build_sender_handshake(KEY), transit.build_receiver_handshake(KEY)
+        self.send_this, self.expect_this = (hs_s, hs_r) if self.sender else (hs_r, hs_s)
+        self.relay_hs = transit.build_sided_relay_handshake(KEY, self.t._side)
         listener = cfg["listener"]
         sep = FakeServerEndpoint()
         self.t._build_listener = (lambda: ([DirectTCPV1Hint("127.0.0.1", 1, 0.0)], sep)) if listener \
@@ -219,8 +223,17 @@ class World:
                 return None
             c = rc = self._new_conn(self.t._listener_f, False)
             raised = self._guard(lambda: c["p"].makeConnection(c["tr"]))
+            if raised is not None:
+                # startNegotiation() raised before the factory subscribed to the negotiation Deferred: nobody ever
+                # will; what it is going to errback with is fixed.  Reported (like the model does) as failed.
+                c["orphan"] = type(raised).__name__
+        elif k == "setkey":
+            if self.has_key:
+                return None
+            self.has_key = True
+            self.t.set_transit_key(KEY)
         elif k == "connect":
-            if self.started:
+            if self.started or not self.has_key:
                 return None
             self.started = True
             self.t0 = self.clock.seconds()
@@ -313,7 +326,8 @@ class World:
             tc = getattr(p, "_TimeoutMixin__timeoutCall", None)
             cs.append(":".join([str(i), st.replace(" ", "-"), str(len(p.buf)),
                                 "".join(self.tok(b) for b in c["tr"].written) or "-", str(c["tr"].lost),
-                                self.show_res(c["obs"].res) if c["obs"].res == "pending" or c["obs"].res[0] == "fail" else "ok",
+                                ("fail:" + c["orphan"]) if c.get("orphan") else
+                                (self.show_res(c["obs"].res) if c["obs"].res == "pending" or c["obs"].res[0] == "fail" else "ok"),
                                 self._exc_name(c, p._error) or "-",
                                 "t" if tc is not None and tc.active() else "-"]))
         w = self.idx(self.t._winner) if self.t._winner is not None else "-"
@@ -321,7 +335,7 @@ class World:
         pend = len(self.t._listener_f._pending_connections) if self.listener_obs else 0
         timers = len([dc for dc in self.clock.getDelayedCalls() if dc.active()])
         res = self.show_res(self.result.res) if self.result else "pending"
-        return f"W={w} R={res} L={lst} O={'open' if self.port_open() else 'closed'} P={pend} T={timers} | " + " ".join(cs)
+        return f"W={w} R={res} L={lst} O={'open' if self.port_open() else 'closed'} K={1 if self.has_key else 0} P={pend} T={timers} | " + " ".join(cs)
 
     # -- the property, on the real objects, after every event ---------------------------------
     def check(self):
@@ -417,7 +431,9 @@ class World:
             if r != "pending" and r[0] == "ok":
                 w = self.idx(r[1])
                 if w == "?" or w not in ok_conns or (self.sender and w not in go_conns):
-                    v.append(("result-not-selected", f"connect() returned conn {w}; negotiated={ok_conns} go={go_conns}"))
+                    what = "None" if r[1] is None else (f"conn {w}" if w != "?" else f"{r[1]!r} (not one of its connections)")
+                    v.append(("result-not-selected", f"connect() returned {what}: not a Connection that completed the "
+                                                     f"handshake; negotiated={ok_conns} go={go_conns}"))
                 for i, c in enumerate(self.conns):
                     if i != w and not c["tr"].lost and not c["gone"]:
                         v.append(("loser-left-open", f"connect() returned conn {w} but conn {i} is still open (state={c['p'].state})"))
@@ -436,7 +452,8 @@ def spec(l):
 def new_line(w):
     c = w.cfg
     return (f"new {c['role']} {1 if c['listener'] else 0} {len(w.dhints)} {spec(int(h[2]) for h in w.rhints)} "
-            f"{hx(w.send_this)} {hx(w.expect_this)} {hx(w.relay_hs)} {spec(w.keys)} {spec(w.raises)}")
+            f"{hx(w.send_this)} {hx(w.expect_this)} {hx(w.relay_hs)} {spec(w.keys)} {spec(w.raises)} "
+            f"{0 if w.has_key else 1}")
 
 
 def op_line(op):
@@ -589,6 +606,8 @@ def gen_case(rng, big=False):
         listener = True
     dh, rh = gen_hints(rng, directs, relays)
     cfg = dict(role=role, listener=listener, dhints=dh, rhints=rh)
+    if listener and rng.random() < 0.25:
+        cfg["late_key"] = True        # listen -> inbound arrivals -> set_transit_key -> connect
     w = World(cfg)
     ops, kinds = [], []
     pending = {}       # conn index -> list of chunks still to deliver
@@ -627,6 +646,29 @@ def gen_case(rng, big=False):
         m = mode if len(s) < 300 or mode != "one" else "rand"
         pending[i] = chunk(rng, s, m)
 
+    if not w.has_key:
+        # arrivals before the key is known: strangers, port scanners, abandoned attempts, the key holder being quick;
+        # they stay, hang up, or sit there until the 60 s timer
+        for _ in range(rng.choice([0, 1, 1, 2, 3])):
+            n0 = len(w.conns)
+            do(["inbound"])
+            for i in range(n0, len(w.conns)):
+                new_peer(i)
+                fate = rng.choice(["stay", "hangup", "timeout", "talk", "talk-hangup"])
+                if fate.startswith("talk"):
+                    while pending[i] and not w.conns[i]["tr"].lost and not w.conns[i]["gone"] and rng.random() < 0.8:
+                        do(["data", i, hx(pending[i].pop(0))])
+                if fate in ("hangup", "talk-hangup"):
+                    do(["lost", i])
+                elif fate == "timeout":
+                    do(["advance", rng.choice([59, 60, 61])])
+                    if rng.random() < 0.7:
+                        do(["lost", i])
+            if rng.random() < 0.3:
+                do(["advance", rng.choice([0, 1, 30, 60])])
+        if rng.random() < 0.1:
+            do(["connect"])            # not possible before the key: skipped
+        do(["setkey"])
     for step in range(nsteps):
         if step == connect_at:
             do(["connect"])
@@ -772,6 +814,17 @@ def corpus():
                    ["advance", 120]], f"nasty-host-{int(lst)}-{pos}")
     c(dict(role="S", listener=True, dhints=[], rhints=[["r\x00", 1, 1], ["r1", 1, 0]]),
       [["connect"], ["advance", 0], ["inbound"], ["data", 0, hx(E_s)], ["advance", 120]], "nasty-relay-host")
+    # the listener is up before the key is known (`wormhole send`): early arrivals that hang up / time out / stay,
+    # then the key, connect(), and the key holder's real attempt
+    K = dict(role="S", listener=True, directs=0, relays=[], late_key=True)
+    c(K, [["inbound"], ["lost", 0], ["setkey"], ["connect"], ["inbound"], ["data", 1, hx(E_s)], ["advance", 120]], "early-hangup-then-key")
+    c(K, [["inbound"], ["advance", 60], ["lost", 0], ["setkey"], ["connect"], ["inbound"], ["data", 1, hx(E_s)]], "early-timeout-then-key")
+    c(K, [["inbound"], ["data", 0, hx(E_s)], ["setkey"], ["connect"], ["data", 0, hx(E_s)], ["inbound"], ["data", 1, hx(E_s)],
+          ["lost", 0]], "early-keyholder-stays")
+    c(K, [["inbound"], ["inbound"], ["lost", 1], ["connect"], ["setkey"], ["lost", 0], ["connect"], ["advance", 120]], "early-two-then-deadline")
+    c(dict(K, role="R", directs=1), [["inbound"], ["lost", 0], ["setkey"], ["connect"], ["connected", 1], ["data", 1, hx(E_r + GO)]], "early-hangup-receiver")
+    c(dict(K, role="R"), [["inbound"], ["data", 0, hx(E_r + GO)], ["advance", 61], ["setkey"], ["connect"], ["inbound"],
+                         ["data", 1, hx(E_r + GO)]], "early-keyholder-receiver")
     # cancelled connection whose timer is still running
     c(dict(L, directs=1), [["connect"], ["inbound"], ["connected", 1], ["data", 1, hx(E_s)], ["advance", 60], ["lost", 0], ["advance", 60]], "cancelled-then-timeout")
     return out
@@ -833,7 +886,7 @@ class DuoWorld:
     def __init__(self, cfg):
         self.cfg = cfg
         def side(role, l, d, r, hd, hr):
-            c = dict(role=role, listener=cfg[l])
+            c = dict(role=role, listener=cfg[l], late_key=bool(cfg.get("k" + role, False)))
             if hd in cfg:
                 c["dhints"] = cfg[hd]
             else:
@@ -854,7 +907,8 @@ class DuoWorld:
         return (f"duo {1 if c['lS'] else 0} {len(S.dhints)} {spec(int(h[2]) for h in S.rhints)} "
                 f"{1 if c['lR'] else 0} {len(R.dhints)} {spec(int(h[2]) for h in R.rhints)} "
                 f"{hx(S.send_this)} {hx(S.expect_this)} {hx(S.relay_hs)} {hx(R.relay_hs)} "
-                f"{spec(S.keys)} {spec(S.raises)} {spec(R.keys)} {spec(R.raises)}")
+                f"{spec(S.keys)} {spec(S.raises)} {spec(R.keys)} {spec(R.raises)} "
+                f"{1 if c.get('kS') else 0} {1 if c.get('kR') else 0}")
 
     def linked(self, side, i):
         return any((l[0] if side == "S" else l[1]) == i for l in self.links)
@@ -1000,6 +1054,10 @@ def gen_duo(rng, big=False):
     if not cfg["lS"] and not cfg["lR"] and not (cfg["rS"] and cfg["rR"]):
         cfg["lS"] = True
         cfg["dR"] = max(cfg["dR"], 1)
+    if cfg["lS"] and rng.random() < 0.25:
+        cfg["kS"] = True
+    if cfg["lR"] and rng.random() < 0.1:
+        cfg["kR"] = True
     cfg["hdS"], cfg["hrS"] = gen_hints(rng, cfg["dS"], cfg["rS"])
     cfg["hdR"], cfg["hrR"] = gen_hints(rng, cfg["dR"], cfg["rR"])
     w = DuoWorld(cfg)
@@ -1016,7 +1074,9 @@ def gen_duo(rng, big=False):
     for step in range(rng.randrange(6, 45 if not big else 90)):
         ch = []
         for side, W in (("S", w.S), ("R", w.R)):
-            if not W.started:
+            if not W.has_key:
+                ch += [[side, "setkey"]] * 3
+            elif not W.started:
                 ch += [[side, "connect"]] * 2
             if W.port_open() and len(W.conns) < 4:
                 ch += [[side, "inbound"]]
@@ -1064,6 +1124,8 @@ def gen_duo(rng, big=False):
         do(op)
     if rng.random() < 0.5:
         for side, W in (("S", w.S), ("R", w.R)):
+            if not W.has_key:
+                do([side, "setkey"])
             if not W.started:
                 do([side, "connect"])
             for i, c in enumerate(W.conns):
@@ -1106,6 +1168,15 @@ def corpus_duo():
       both + [["link", "s", 0], ["fwd", "RS", 0, 200], ["fwd", "SR", 0, 200], ["S", "advance", 120], ["R", "advance", 120]], "nasty-host-then-listener")
     c(dict(lR=True, hdS=[["d0", 1, 0], ["::1\x00", 1, 0]], hrS=[]),
       both + [["link", "r", 0], ["fwd", "RS", 0, 200], ["fwd", "SR", 0, 200], ["S", "advance", 120], ["R", "advance", 120]], "nasty-host-behind")
+    # the Sender listens before it has the key (wormhole send): a stranger arrives early and hangs up (or not);
+    # then the key, both connect(), the Receiver dials in
+    c(dict(lS=True, kS=True, dR=1), [["S", "inbound"], ["S", "lost", 0], ["S", "setkey"]] + both +
+      [["link", "s", 0], ["fwd", "RS", 0, 200], ["fwd", "SR", 0, 200], ["S", "advance", 120], ["R", "advance", 120]], "early-stranger-hangup")
+    c(dict(lS=True, kS=True, dR=1), [["S", "inbound"], ["S", "advance", 60], ["S", "setkey"]] + both +
+      [["S", "lost", 0], ["link", "s", 0], ["fwd", "RS", 0, 200], ["fwd", "SR", 0, 200]], "early-stranger-timeout")
+    # the Receiver is quicker than the Sender's key: its first dial is dropped, a second one works
+    c(dict(lS=True, kS=True, dR=2), [["R", "connect"], ["link", "s", 0], ["fwd", "RS", 0, 200], ["S", "setkey"], ["S", "connect"],
+                                    ["link", "s", 1], ["fwd", "RS", 1, 200], ["fwd", "SR", 1, 200], ["R", "lost", 0]], "early-keyholder-then-retry")
     # the Receiver is late: the Sender's deadline passes first
     c(dict(lS=True, dR=1), [["S", "connect"], ["S", "advance", 120], ["R", "connect"], ["link", "s", 0], ["R", "connfail", 0]], "late-receiver")
     # the link is cut before go arrives
